@@ -342,12 +342,25 @@ func execC03(t *testing.T, c *Case) *Verdict {
 							out = "panic(" + maskPtr(fmt.Sprint(pv)) + ")"
 						}
 					}()
-					res, err := p.fp.Evaluate(pickResources(op, in.resources), opts...)
-					if err != nil {
-						out = canonErr(err)
-					} else {
-						out = canonCollection(in.nodeIdx, res)
-						e.checkResult(in, where, res)
+					inputs := pickResources(op, in.resources)
+					switch op.Kind {
+					case "bool":
+						b, err := p.fp.EvaluateAsBool(inputs, opts...)
+						out = fmt.Sprintf("bool(%v,%v)", b, err != nil)
+					case "string":
+						x, err := p.fp.EvaluateAsString(inputs, opts...)
+						out = fmt.Sprintf("string(%q,%v)", x, err != nil)
+					case "int":
+						x, err := p.fp.EvaluateAsInt32(inputs, opts...)
+						out = fmt.Sprintf("int(%d,%v)", x, err != nil)
+					default:
+						res, err := p.fp.Evaluate(inputs, opts...)
+						if err != nil {
+							out = canonErr(err)
+						} else {
+							out = canonCollection(in.nodeIdx, res)
+							e.checkResult(in, where, res)
+						}
 					}
 				}()
 			}
